@@ -64,6 +64,11 @@ class C14(Prop):
         r = num(0, 50)
         ops = []
         r0 = r
+        big = rnd.random() < 0.1
+        if big:
+            # a clock that shows seconds since the epoch, and speeds of a fast-forward simulation: a second is a second
+            # at any magnitude
+            ops.append(['time', enc(r), enc(r), rnd.choice([1700000000, 315360000, 10 ** 12])])
 
         def adv():
             nonlocal r
@@ -81,7 +86,7 @@ class C14(Prop):
                 r2 = adv() if rnd.random() < 0.5 else r1
                 if rnd.random() < 0.5:
                     ops.append(['read', enc(r1)])
-                ops.append(['speed', enc(r1), enc(r2), enc(rnd.choice([0, 0, 1, 1, 2, 3, num(0, 5), Fraction(1, 2)]))])
+                ops.append(['speed', enc(r1), enc(r2), enc(rnd.choice([0, 0, 1, 1, 2, 3, num(0, 5), Fraction(1, 2)] + ([1000, 200000, 3600] if big else [])))])
                 if rnd.random() < 0.6:
                     ops.append(['read', enc(r2)])
             elif c < 0.62:
